@@ -50,9 +50,9 @@ func pa(c bool, id string) {
 type nopRMetrics struct{}
 
 func (nopRMetrics) ReconciliationDuration(cell.FullModuleID, string, string, time.Duration) {}
-func (nopRMetrics) ReconciliationErrors(cell.FullModuleID, string, int, int)               {}
-func (nopRMetrics) PruneError(cell.FullModuleID, string, error)                            {}
-func (nopRMetrics) PruneDuration(cell.FullModuleID, string, time.Duration)                 {}
+func (nopRMetrics) ReconciliationErrors(cell.FullModuleID, string, int, int)                {}
+func (nopRMetrics) PruneError(cell.FullModuleID, string, error)                             {}
+func (nopRMetrics) PruneDuration(cell.FullModuleID, string, time.Duration)                  {}
 
 var errScripted = errors.New("scripted failure")
 
@@ -121,25 +121,26 @@ type keyModel struct {
 	present bool
 	val     uint64
 	// retry pacing bookkeeping
-	failedAt    int64 // virtual time of the last failure (-1 none)
-	lastWait    int64
-	failing     bool // a failed operation awaits retry
+	failedAt            int64 // virtual time of the last failure (-1 none)
+	lastWait            int64
+	failing             bool // a failed operation awaits retry
 	changedSinceFailure bool
-	failures    int // consecutive failures since the last change/success
-	version, synced int // user-write counter / version last reconciled successfully
+	failures            int // consecutive failures since the last change/success
+	version, synced     int // user-write counter / version last reconciled successfully
+	attempted           int // version for which Update/Delete was last attempted
 }
 
 type c14harness struct {
-	db      *statedb.DB
-	table   statedb.RWTable[*robj]
-	ops     *scriptOps
-	keys    map[byte]*keyModel
-	F       int // remaining symbolic failure decisions
-	quiesce bool
-	inject  func()
-	minB, maxB int64
-	inAttempt    int
-	attemptStale bool
+	db              *statedb.DB
+	table           statedb.RWTable[*robj]
+	ops             *scriptOps
+	keys            map[byte]*keyModel
+	F               int // remaining symbolic failure decisions
+	quiesce         bool
+	inject          func()
+	minB, maxB      int64
+	inAttempt       int
+	attemptStale    bool
 	maxAttemptedRev statedb.Revision
 	attemptedRevs   map[statedb.Revision]bool
 }
@@ -163,6 +164,7 @@ func (h *c14harness) km(id byte) *keyModel {
 
 func (h *c14harness) onAttempt(id byte, del bool, obj *robj, rev statedb.Revision) {
 	k := h.km(id)
+	k.attempted = k.version
 	now := vnd.Now()
 	if rev > h.maxAttemptedRev {
 		h.maxAttemptedRev = rev
@@ -308,7 +310,7 @@ func VerifC14Rounds() {
 	ops := &scriptOps{h: h, target: map[byte]uint64{}, lastOp: map[byte]string{}}
 	h.ops = ops
 	cfg := config[*robj]{
-		Table:           table,
+		Table: table,
 		GetObjectStatus: func(o *robj) Status {
 			if vnd.Param("STATUSSET", 0) == 1 {
 				return o.set.Get("verif")
@@ -380,6 +382,16 @@ func VerifC14Rounds() {
 		_, _, werr := progress.wait(cctx, tableRev)
 		if werr == nil {
 			pa(h.maxAttemptedRev >= 0 && lastRev >= 0, "C16.wait")
+		}
+		// WaitUntilReconciled(rev) == nil only after every change up to rev has been
+		// attempted: the reported revision must not be at or beyond a pending
+		// object whose latest version was never passed to Update
+		cur, _, _ := progress.wait(cctx, 0)
+		for id, k := range h.keys {
+			if o, orev, ok := table.Get(txn, robjIndex.Query(id)); ok && k.present && k.attempted != k.version {
+				_ = o
+				pa(orev > cur, "C16.progress-ahead-of-unattempted-change")
+			}
 		}
 		// what WaitUntilReconciled reports is the low-watermark of this round
 		_, lwReported, _ := progress.wait(cctx, 0)
@@ -493,4 +505,113 @@ func (f failFirst) Update(ctx context.Context, txn statedb.ReadTxn, rev statedb.
 	}
 	f.target[obj.id] = obj.val
 	return nil
+}
+
+func init() { verifEntries["VerifC15Prune"] = VerifC15Prune }
+
+type nopHealth struct{}
+
+func (nopHealth) OK(string)                   {}
+func (nopHealth) Stopped(string)              {}
+func (nopHealth) Degraded(string, error)      {}
+func (nopHealth) NewScope(string) cell.Health { return nopHealth{} }
+func (nopHealth) Close()                      {}
+
+type pruneOps struct {
+	*scriptOps
+	table   statedb.RWTable[*robj]
+	calls   int
+	badInit bool
+	badSet  bool
+	wantLen func() int
+}
+
+func (p *pruneOps) Prune(ctx context.Context, txn statedb.ReadTxn, objects iter.Seq2[*robj, statedb.Revision]) error {
+	p.calls++
+	if init, _ := p.table.Initialized(txn); !init {
+		p.badInit = true
+	}
+	n := 0
+	for range objects {
+		n++
+	}
+	if n != p.table.NumObjects(txn) {
+		p.badSet = true
+	}
+	return nil
+}
+
+// VerifC15Prune: the real reconcileLoop runs as a VM thread under virtual time
+// with a short prune interval; the table has a pending initializer for a
+// symbolic number of prune periods, objects are inserted meanwhile, an explicit
+// Prune() may be requested before initialization. Prune must only ever be
+// called with a snapshot in which the table is initialized, and with the
+// complete contents of that snapshot; and it must be called after initialization.
+func VerifC15Prune() {
+	const unit = int64(time.Millisecond)
+	db := statedb.New(statedb.WithMetrics(&statedb.NopMetrics{}))
+	table, err := statedb.NewTable[*robj](db, "robjs", robjIndex)
+	if err != nil {
+		panic(err)
+	}
+	h := &c14harness{inAttempt: -1, db: db, table: table, keys: map[byte]*keyModel{}, attemptedRevs: map[statedb.Revision]bool{}, quiesce: true}
+	sops := &scriptOps{h: h, target: map[byte]uint64{}, lastOp: map[byte]string{}}
+	h.ops = sops
+	ops := &pruneOps{scriptOps: sops, table: table}
+	w := db.WriteTxn(table)
+	markInit := table.RegisterInitializer(w, "verif")
+	w.Commit()
+	idx := table.PrimaryIndexer()
+	r := &reconciler[*robj]{
+		Params: Params{DB: db},
+		config: config[*robj]{
+			Table:           table,
+			GetObjectStatus: func(o *robj) Status { return o.status },
+			SetObjectStatus: func(o *robj, s Status) *robj { o.status = s; return o },
+			CloneObject:     func(o *robj) *robj { c := *o; return &c },
+			Operations:      ops,
+			options: options{
+				Metrics:                 nopRMetrics{},
+				RetryBackoffMinDuration: time.Duration(unit),
+				RetryBackoffMaxDuration: time.Duration(4 * unit),
+				IncrementalRoundSize:    1000,
+				PruneInterval:           time.Duration(10 * unit),
+			},
+		},
+		retries:              newRetries(time.Duration(unit), time.Duration(4*unit), func(o any) index.Key { return idx.ObjectToKey(o.(*robj)) }),
+		externalPruneTrigger: make(chan struct{}, 1),
+		primaryIndexer:       idx,
+		progress:             newProgressTracker(),
+	}
+	ctx, cancel := context.WithCancel(context.Background())
+	done := make(chan struct{})
+	vnd.Go(func() {
+		defer close(done)
+		r.reconcileLoop(ctx, nopHealth{})
+	})
+	h.userUpsert('a', 1)
+	if vnd.Bool("explicit-prune-before-init") {
+		r.Prune()
+	}
+	// the table stays uninitialized for 0..3 prune periods
+	periods := vnd.IntRange("periods", 0, 3)
+	for i := 0; i < periods; i++ {
+		vnd.Sleep(10 * unit)
+		if i == 0 {
+			h.userUpsert('b', 2)
+		}
+	}
+	vnd.Settle()
+	vnd.Assert(ops.calls == 0, "C15.prune-before-initialized")
+	w = db.WriteTxn(table)
+	markInit(w)
+	w.Commit()
+	vnd.Sleep(25 * unit)
+	vnd.Settle()
+	vnd.Assert(!ops.badInit, "C15.prune-with-uninitialized-snapshot")
+	vnd.Assert(!ops.badSet, "C15.prune-with-incomplete-contents")
+	vnd.Assert(ops.calls > 0, "C15.prune-never-called-after-initialization")
+	cancel()
+	<-done
+	vnd.Cover("C15.prune.end")
 }
